@@ -13,6 +13,8 @@
 (*  "secmut"    as "sec", for a sloppy decoder  (must VIOLATE the lemmas)      *)
 (*  "toykey"    an exponent; an abscissa; a     range rule; every ordinate;    *)
 (*              point                           Decode(Encode(P)) = P lemmas   *)
+(*  "pubrep"    (representation kind, abscissa) every ordinate the kind can    *)
+(*              infinity spellings, k*G, Q-Q    carry; all refused             *)
 (*  "sec256"    (length, prefix octet)          x class x y class x mode       *)
 (*  "wif"       a 32-byte exponent              payload shapes x prefix ok/bad *)
 (*  "der"       a blob prefix                   every extension over DerExt    *)
@@ -103,6 +105,49 @@ ToyEval(it) ==
         \* integers that are not field elements but are congruent to a point: the property is silent
         lift |-> {y \in ToyCoords : ~PairOk(it.x, y) /\ OnCurveXY(it.x, y)},
         bad |-> {y \in ToyCoords : PairOk(it.x, y) /\ <<it.x, y>> \notin Affine}]
+
+(* =============================================================== stage "pubrep" *)
+\* Every way a caller can hand in a public point: representation kind x value.  The foreign curve is
+\* another of the small curves (its points are offered, as point objects of THAT curve, to a key of this one).
+Foreign == CASE P = 43 -> [p |-> 83, a |-> 1, b |-> 7, gx |-> 0, gy |-> 16, n |-> 79]
+             [] P = 83 -> [p |-> 103, a |-> 0, b |-> 5, gx |-> 2, gy |-> 42, n |-> 97]
+             [] OTHER  -> [p |-> 43, a |-> 0, b |-> 7, gx |-> 2, gy |-> 12, n |-> 31]
+FOn(x, y) == x < Foreign.p /\ y < Foreign.p
+             /\ (y * y - (x * x * x + Foreign.a * x + Foreign.b)) % Foreign.p = 0     \* x, y < 2^10: no overflow
+RepKinds == {"tuple", "list", "ownpoint", "foreignpoint"}
+RepCoords == 0..((IF P > Foreign.p THEN P ELSE Foreign.p) + 1)
+\* which values a representation can carry at all (a point object only exists for a point of its curve)
+Carries(kind, x, y) == CASE kind = "ownpoint"     -> PairOk(x, y)
+                         [] kind = "foreignpoint" -> FOn(x, y)
+                         [] OTHER                 -> TRUE
+InfHows == {"none-tuple", "none-list", "own-infinity", "foreign-infinity"}
+HalfHows == {"none-x", "none-y"}
+RepItems == {[t |-> "col", kind |-> kd, x |-> x] : kd \in RepKinds, x \in RepCoords}
+       \cup {[t |-> "inf", how |-> h] : h \in InfHows \cup HalfHows}
+       \cup {[t |-> "kg", k |-> k] : k \in {0, N, 2 * N, 0 - N}}
+       \cup {[t |-> "qmq"]}
+RepEval(it) ==
+  CASE it.t = "col" ->
+        LET cand == {y \in RepCoords : Carries(it.kind, it.x, y)} IN
+        [k |-> "repcol", kind |-> it.kind, x |-> it.x, cand |-> cand,
+         acc |-> {y \in cand : PubOk(<<it.x, y>>)},
+         \* not field elements but congruent to a point: the property is silent
+         lift |-> {y \in cand : ~PubOk(<<it.x, y>>) /\ OnCurveXY(it.x, y)},
+         bad |-> {y \in cand : PubOk(<<it.x, y>>) /\ <<it.x, y>> \notin Affine}]
+    [] it.t = "inf" -> [k |-> "repinf", how |-> it.how, ok |-> FALSE, bad |-> {}]       \* infinity / not a pair: never a key
+    [] it.t = "kg"  -> [k |-> "repkg", kk |-> it.k, isinf |-> PubOf(it.k) = Inf, ok |-> PubOk(PubOf(it.k)),
+                        bad |-> IF PubOf(it.k) = Inf /\ ~PubOk(PubOf(it.k)) THEN {} ELSE {it.k}]
+    [] it.t = "qmq" -> [k |-> "repqmq", pts |-> Affine, ok |-> FALSE,
+                        bad |-> {q \in Affine : Add(q, Neg(q)) # Inf \/ PubOk(Add(q, Neg(q)))}]
+\* the same rule on classes of values, for curves TLC cannot compute on (the harness concretizes on secp256k1,
+\* foreign = secp256r1 and a small curve)
+RepClasses == {"own-affine", "foreign-only", "off-both", "infinity", "half-none"}
+ClassCarried(kind, cls) == CASE kind = "ownpoint"     -> cls \in {"own-affine", "infinity"}
+                             [] kind = "foreignpoint" -> cls \in {"foreign-only", "infinity"}
+                             [] OTHER                 -> TRUE
+RepTable == {[kind |-> kd, cls |-> c, ok |-> c = "own-affine"] : kd \in RepKinds, c \in RepClasses}
+RepHeader == [k |-> "rephdr", p |-> P, a |-> A, b |-> B, gx |-> Gx, gy |-> Gy, n |-> N, foreign |-> Foreign,
+              table |-> {r \in RepTable : ClassCarried(r.kind, r.cls)}]
 
 (* =============================================================== stage "sec256" *)
 \* secp256k1: coordinates are 32 octets; the blob is described by classes the harness concretizes.
@@ -220,6 +265,7 @@ SigEval(it) ==
 Items == CASE Stage = "sec"    -> SecItems
            [] Stage = "secmut" -> SecItems
            [] Stage = "toykey" -> ToyItems
+           [] Stage = "pubrep" -> RepItems
            [] Stage = "sec256" -> Sec256Items
            [] Stage = "wif"    -> WifItems
            [] Stage = "der"    -> DerItems
@@ -227,12 +273,14 @@ Items == CASE Stage = "sec"    -> SecItems
 Eval(it) == CASE Stage = "sec"    -> SecEval(it)
               [] Stage = "secmut" -> MutEval(it)
               [] Stage = "toykey" -> ToyEval(it)
+              [] Stage = "pubrep" -> RepEval(it)
               [] Stage = "sec256" -> Sec256Eval(it)
               [] Stage = "wif"    -> WifEval(it)
               [] Stage = "der"    -> DerEval(it)
               [] Stage = "dersig" -> SigEval(it)
 Header == CASE Stage = "sec" -> SecHeader
             [] Stage = "toykey" -> SecHeader
+            [] Stage = "pubrep" -> RepHeader
             [] Stage = "der" -> DerHeader
             [] OTHER -> [k |-> "hdr", stage |-> Stage]
 
